@@ -12,8 +12,8 @@ of the Spec-side patterns.
 namespace Verif.Proofs.C09HtmlRelex
 open Verif.Model.Html Verif.Model.HtmlAttr Verif.Spec.C09HtmlShape Verif.Spec.C09HtmlTok
 
-theorem isAlpha_eq (c : Char) : Verif.Model.Html.isAlpha c = Verif.Spec.HtmlAttr.isAlpha c := by
-  simp only [Verif.Model.Html.isAlpha, Verif.Spec.HtmlAttr.isAlpha, Char.le_def, Char.toNat]
+theorem isAlpha_eq (c : Char) : Verif.Model.Html.rawLetter c = Verif.Spec.HtmlAttr.isAlpha c := by
+  simp only [Verif.Model.Html.rawLetter, Verif.Spec.HtmlAttr.isAlpha, Char.le_def, Char.toNat]
   have h1 : ('a' : Char).val.toNat = 97 := rfl
   have h2 : ('z' : Char).val.toNat = 122 := rfl
   have h3 : ('A' : Char).val.toNat = 65 := rfl
@@ -21,8 +21,8 @@ theorem isAlpha_eq (c : Char) : Verif.Model.Html.isAlpha c = Verif.Spec.HtmlAttr
   simp only [UInt32.le_iff_toNat_le, h1, h2, h3, h4]
   rw [Bool.or_comm]
 
-theorem lowerChar_eq (c : Char) : lowerChar c = lower c := by
-  simp only [lowerChar, lower, Char.le_def, Char.toNat, Bool.and_eq_true, decide_eq_true_eq]
+theorem lowerChar_eq (c : Char) : rawLower c = lower c := by
+  simp only [rawLower, lower, Char.le_def, Char.toNat, Bool.and_eq_true, decide_eq_true_eq]
   have h3 : ('A' : Char).val.toNat = 65 := rfl
   have h4 : ('Z' : Char).val.toNat = 90 := rfl
   simp only [UInt32.le_iff_toNat_le, h3, h4]
@@ -68,20 +68,20 @@ theorem wordIs_of_startsEndTag (name : List Char) (hg : goodRawTag name = true) 
     rw [hd] at h2
     have hr : r = r.take name.length ++ d :: r2 := by rw [← hd, List.take_append_drop]
     simp only [goodRawTag, Bool.and_eq_true, Bool.not_eq_true', List.all_eq_true, beq_iff_eq] at hg
-    have halpha : ∀ c ∈ r.take name.length, Verif.Model.Html.isAlpha c = true := by
+    have halpha : ∀ c ∈ r.take name.length, Verif.Model.Html.rawLetter c = true := by
       intro c hc
       rw [isAlpha_eq]
       apply alpha_of_lower_alpha
       have : lower c ∈ name := by rw [← h1]; exact List.mem_map_of_mem hc
       exact (hg.2 _ this).1
-    have hdn : Verif.Model.Html.isAlpha d = false := by rw [isAlpha_eq]; exact delim_not_alpha d h2
+    have hdn : Verif.Model.Html.rawLetter d = false := by rw [isAlpha_eq]; exact delim_not_alpha d h2
     unfold wordIs
     rw [hr, List.append_assoc]
-    have : ((r.take name.length) ++ (d :: r2 ++ tail)).takeWhile Verif.Model.Html.isAlpha = r.take name.length := by
-      have := List.takeWhile_append_of_pos (p := Verif.Model.Html.isAlpha) (l₂ := d :: r2 ++ tail) halpha
+    have : ((r.take name.length) ++ (d :: r2 ++ tail)).takeWhile Verif.Model.Html.rawLetter = r.take name.length := by
+      have := List.takeWhile_append_of_pos (p := Verif.Model.Html.rawLetter) (l₂ := d :: r2 ++ tail) halpha
       rw [this]; simp [List.takeWhile, hdn]
     rw [this]
-    have : (r.take name.length).map lowerChar = (r.take name.length).map lower :=
+    have : (r.take name.length).map rawLower = (r.take name.length).map lower :=
       List.map_congr_left (fun c _ => lowerChar_eq c)
     rw [this, h1]; simp
 
